@@ -8,6 +8,7 @@ import Petl.HashJoin
 import Petl.SetOps
 import Petl.Group
 import Petl.Dedup
+import Petl.Select
 namespace Petl
 
 def opCmp : P String := do
@@ -347,6 +348,74 @@ def opIsUnique : P String := do
     | .ok idx => pure (showBool (isUniqueVals (rows.map (getKey idx))))
   | _, _ => pure "ERR unsupported"
 
+def pPred : P Pred := do
+  let t ← tok
+  match t with
+  | "eq" => return .eq (← pVal) | "ne" => return .ne (← pVal)
+  | "lt" => return .lt (← pVal) | "le" => return .le (← pVal)
+  | "gt" => return .gt (← pVal) | "ge" => return .ge (← pVal)
+  | "rol" => do let a ← pVal; let b ← pVal; return .rangeOpenLeft a b
+  | "ror" => do let a ← pVal; let b ← pVal; return .rangeOpenRight a b
+  | "ro" => do let a ← pVal; let b ← pVal; return .rangeOpen a b
+  | "rc" => do let a ← pVal; let b ← pVal; return .rangeClosed a b
+  | "in" => do
+    match (← pVal) with
+    | .seq _ xs => return .isIn xs
+    | _ => P.fail "in needs a sequence"
+  | "notin" => do
+    match (← pVal) with
+    | .seq _ xs => return .notIn xs
+    | _ => P.fail "notin needs a sequence"
+  | "none" => return .isNone | "notnone" => return .notNone
+  | "true" => return .isTrue | "false" => return .isFalse
+  | _ => P.fail s!"bad predicate {t}"
+
+/-- select <field> <missing> <complement> <pred…> <table> -/
+def opSelect : P String := do
+  let key ← pKey
+  let missing ← pVal
+  let compl ← pBool
+  let p ← pPred
+  let t ← pTable
+  match t, key with
+  | hdr :: _, some k =>
+    match asindices hdr k with
+    | .error e => pure (showOut (.fail [hdr] e))
+    | .ok idx => pure (showOut (selectView idx missing p compl t))
+  | [], some _ => pure (showOut (.fail [] .fieldSelection))
+  | _, none => P.fail "select needs a field"
+
+/-- rowlen <n> <complement> <table> -/
+def opRowLen : P String := do
+  let n ← pNat
+  let compl ← pBool
+  let t ← pTable
+  match t with
+  | [] => pure (showOut (.ok []))
+  | hdr :: rows => pure (showOut (.ok (hdr :: rowSelect (fun r => r.length == n) compl rows)))
+
+/-- slice <start|-> <stop|-> <step|-> <table> ; tail <n> <table> ; skip <n> <table> -/
+def opSlice : P String := do
+  let start ← pOptNat
+  let stop ← pOptNat
+  let step ← pOptNat
+  let t ← pTable
+  match t with
+  | [] => pure (showOut (.ok []))
+  | hdr :: rows => pure (showOut (.ok (hdr :: islice (start.getD 0) stop (step.getD 1) rows)))
+
+def opTail : P String := do
+  let n ← pNat
+  let t ← pTable
+  match t with
+  | [] => pure (showOut (.ok []))
+  | hdr :: rows => pure (showOut (.ok (hdr :: tailRows n rows)))
+
+def opSkip : P String := do
+  let n ← pNat
+  let t ← pTable
+  pure (showOut (.ok (islice n none 1 t)))
+
 def dispatch (op : String) : Option (P String) :=
   match op with
   | "cmp" => some opCmp
@@ -365,6 +434,11 @@ def dispatch (op : String) : Option (P String) :=
   | "mergedup" => some opMergeDup
   | "dedup" => some opDedup
   | "isunique" => some opIsUnique
+  | "select" => some opSelect
+  | "rowlen" => some opRowLen
+  | "slice" => some opSlice
+  | "tail" => some opTail
+  | "skip" => some opSkip
   | _ => none
 
 end Petl
